@@ -4,6 +4,13 @@ from ..monitors import tree as MT
 from ..oracles import shadow as S
 from ..workloads import shapes as W9
 
+MANIFEST = dict(
+    technique='runtime contract on BinaryTreeNode.rotate (entry snapshot of in-order object sequence and links, exit audit); exhaustive shape workload',
+    text="Every rotate() call (workload, and the associative rule's internal ones) is checked at exit against the in-order sequence and links recorded at entry; all shapes up to the bound x all nodes are driven.",
+    note='Trusts CPython and our link audit.',
+    ref='DESIGN.md 3/C15',
+)
+
 RULE = (
     "W9: every binary tree shape up to N nodes (quick 8, thorough 10) x every node (incl. the root), built from raw "
     "BinaryTreeNode and from expression classes; random shapes to 120 nodes; rotations performed by the associative "
